@@ -69,13 +69,13 @@ theorem refill_stable_room (b : Buf) (nmin : Nat) (ha : b.anchor = some 0) (hroo
     · split
       · rfl
       · have hs : shiftLeft b = some b := by
-          unfold shiftLeft
+          unfold shiftLeft shiftLeft0
           have : ¬ (b.balloc - b.n < b.pagesize ∧ 0 < b.pos) := by omega
           simp [this]
         rw [hs]
         show (load (grow b)).2.memgen = b.memgen
         have hg : grow b = b := by
-          unfold grow
+          unfold grow growR grow0
           have : ¬ (b.n + b.pagesize > b.balloc) := by omega
           simp [this]
         rw [hg]; rfl
